@@ -247,13 +247,27 @@ def encItems (c : Cfg) (all : Items) (payload : Bytes) (v : Value) : Items → E
   | .nil => .ok []
   | .cons i r => (encItem c all payload v i).bind fun a => (encItems c all payload v r).bind fun b => .ok (a ++ b)
 
-/-- `serialize()` of a packet or struct without parent -/
+/-- `serialize()`: a packet or struct without parent writes its fields; a child writes its own fields into a
+    buffer and returns `Parent.serialize(self, payload=bytes(_span))` — the parent's fields around those octets, the
+    parent's size field computed from their actual length, the constrained fields read from the constants the
+    child's `__post_init__` has stored -/
 def encBody (c : Cfg) : Body → Value → Enc Bytes
   | .root _ items, v =>
     match (if items.hasPayload then (v.get? "payload").bind valBytes else some []) with
     | none => .panic .badValue
     | some p => encItems c items p v items
-  | .derived .., _ => .panic .badLayout
+  | .derived _ parent _ allCs items, v =>
+    match (if items.hasPayload then (v.get? "payload").bind valBytes else some []) with
+    | none => .panic .badValue
+    | some p =>
+      let v' := Value.obj (v.fields ++ allCs.map fun (k, c) => (k, Value.int c))
+      (encItems c items p v' items).bind fun inner => encAround c parent v' inner
+
+/-- the ancestors' `serialize(self, payload=inner)`, innermost first -/
+def encAround (c : Cfg) : Body → Value → Bytes → Enc Bytes
+  | .root _ items, v, inner => encItems c items inner v items
+  | .derived _ parent _ _ items, v, inner =>
+    (encItems c items inner v items).bind fun x => encAround c parent v x
 end
 
 mutual
@@ -283,6 +297,17 @@ end
 def serWfBody : Body → Bool
   | .root _ items => serWfItems items
   | .derived .. => false
+
+/-- a child and its ancestors: every level in the serializer class, every ancestor with exactly one payload, the
+    static annotations in agreement with the types (`lenWfBody`, what `Schema` guarantees) -/
+def serWfChain : Body → Bool
+  | .root _ items => serWfItems items && items.hasPayload && decide ((payloadModes items).length ≤ 1)
+  | .derived _ parent _ _ items =>
+    serWfItems items && items.hasPayload && decide ((payloadModes items).length ≤ 1) && serWfChain parent
+
+def serWfChild : Body → Bool
+  | .derived nm parent cs allCs items => serWfItems items && serWfChain parent && lenWfBody (.derived nm parent cs allCs items)
+  | .root .. => false
 
 end Py
 end Pdlv
